@@ -272,18 +272,27 @@ def r09c(ctx):
     ctx.ob('R09c', 'FlattenFeaturesCalculator.features', bool(ok),
            'multiplier x features of the flattened tensor' if ok else
            f'features = {short(f[0]) if f else None}', where(fc.getters['features']))
-    m = [p.retval for p in returning(paths(repo, fc.getters['features_mask']))
-         if p.retval[2][0] != ('list', ())]
-    okm = len(m) == 1 and is_call(m[0], 'torch.cat') and len(m[0][2][0][1]) == 1
-    if okm:
-        el = m[0][2][0][1][0]
-        okm = el[0] == 'bin' and el[1] == '*' and \
-            any(x[0] == 'elem' and x[1] == ('attr', prev, 'features_mask') for x in (el[2], el[3])) \
-            and any(is_call(x, 'builtins.getattr') and
-                    x[2][1] == ('attr', SELF, 'mask_expander_name') for x in (el[2], el[3]))
-    ctx.ob('R09c', 'FlattenFeaturesCalculator.features_mask', bool(okm),
-           'each element of the producer mask expanded by the spatial size, channel-major' if okm
-           else f'features_mask = {short(m[0]) if m else None}', where(fc.getters['features_mask']))
+    g = fc.getters['features_mask']
+    verdicts = []
+    for p in returning(paths(repo, g)):
+        if mentions(p.retval, lambda x: x == ('list', ())) and \
+                any(e.kind == 'loop0' for e in p.events):
+            continue            # the producer mask is never empty
+        verdicts.append((flatten_layout(p.retval, prev), p.retval))
+    if not verdicts:
+        raise AnalysisError('FlattenFeaturesCalculator.features_mask: no path analysed')
+    for lay, t in verdicts:
+        if lay is None:
+            raise AnalysisError(f'FlattenFeaturesCalculator.features_mask: layout of '
+                                f'{short(t, 200)} is outside the layout domain')
+        okm = lay == 'C,M'
+        ctx.ob('R09c', 'FlattenFeaturesCalculator.features_mask layout', okm,
+               'channel-major: each channel bit repeated over its flattened positions, the order '
+               'torch.flatten produces' if okm else
+               f'features_mask = {short(t, 160)} is laid out position-major (the whole channel '
+               f'mask tiled once per position): the count is right but the bits no longer line up '
+               f'with the channel-major columns torch.flatten produces, so export keeps the wrong '
+               f'weight columns of the following Linear', where(g))
     init = fc.methods['__init__']
     sizes = {e.data[1]: e.data[2] for p in returning(paths(repo, init)) for e in p.events
              if e.kind == 'setattr' and e.data[0] == SELF}
@@ -318,6 +327,105 @@ def r09c(ctx):
     ctx.ob('R09c', 'ModAttrFeaturesCalculator views', okf and okm,
            'count and mask are two attributes of the same producer module' if okf and okm else
            'count and mask are not read from the same module', where(ma.getters['features']))
+
+
+def flatten_layout(t: Term, prev: Term) -> Optional[str]:
+    """Layout domain for the expanded mask: 'C,M' (channel-major), 'M,C' (position-major) or
+    None (not modelled).  Axis labels: C = producer channels, M = flattened positions."""
+    P = ('attr', prev, 'features_mask')
+
+    def is_expander(x):
+        return is_call(x, 'builtins.getattr') and len(x[2]) == 2 and \
+            x[2][1] == ('attr', SELF, 'mask_expander_name')
+
+    def is_mult(x):
+        return is_call(x, 'builtins.getattr') and len(x[2]) == 2 and \
+            x[2][1] == ('attr', SELF, 'multiplier_name')
+
+    def lab(x) -> Optional[List[str]]:
+        if x == P:
+            return ['C']
+        if is_expander(x):
+            return ['M']
+        mc = method_call(x)
+        if mc:
+            base = lab(mc[0])
+            if base is None:
+                return None
+            if mc[1] == 'unsqueeze' and mc[2] and mc[2][0][0] == 'const':
+                k = mc[2][0][1]
+                k = len(base) + 1 + k if k < 0 else k
+                return base[:k] + ['1'] + base[k:]
+            if mc[1] in ('view', 'reshape') and len(base) == 1:
+                shape = mc[2][0][1] if len(mc[2]) == 1 and mc[2][0][0] in ('tuple', 'list') \
+                    else mc[2]
+                vals = [a[1] if a[0] == 'const' else None for a in shape]
+                if vals == [-1]:
+                    return base
+                if vals.count(-1) == 1 and all(v in (1, -1) for v in vals):
+                    return [base[0] if v == -1 else '1' for v in vals]
+                return None
+            if mc[1] in ('float', 'bool', 'to', 'clone', 'contiguous', 'detach', 'type'):
+                return base
+            if mc[1] in ('flatten',) or (mc[1] in ('reshape', 'view') and mc[2] and
+                                         mc[2][0] == ('const', -1)):
+                real = [a for a in base if a != '1']
+                return [','.join(real)]
+            if mc[1] == 'repeat_interleave' and base == ['C']:
+                return ['C,M']
+            if mc[1] == 'repeat' and base == ['C']:
+                return ['M,C']
+            if mc[1] == 't' and len(base) == 2:
+                return base[::-1]
+            return None
+        if x[0] == 'bin' and x[1] == '*' or is_call(x, 'torch.mul'):
+            a, b = (x[2], x[3]) if x[0] == 'bin' else (x[2][0], x[2][1])
+            la, lb = lab(a), lab(b)
+            if la is None or lb is None:
+                return None
+            n = max(len(la), len(lb))
+            la = ['1'] * (n - len(la)) + la
+            lb = ['1'] * (n - len(lb)) + lb
+            out = []
+            for u, v in zip(la, lb):
+                if u == '1':
+                    out.append(v)
+                elif v == '1' or u == v:
+                    out.append(u)
+                else:
+                    return None
+            return out
+        if is_call(x, 'torch.flatten') and x[2]:
+            base = lab(x[2][0])
+            return None if base is None else [','.join(a for a in base if a != '1')]
+        if is_call(x, 'torch.repeat_interleave') and x[2] and lab(x[2][0]) == ['C']:
+            return ['C,M']
+        if is_call(x, 'torch.kron') and len(x[2]) == 2:
+            la, lb = lab(x[2][0]), lab(x[2][1])
+            if la and lb and len(la) == 1 and len(lb) == 1:
+                return [la[0] + ',' + lb[0]]
+        if is_call(x, 'torch.cat') and x[2] and x[2][0][0] == 'list' and len(x[2][0][1]) == 1:
+            el = x[2][0][1][0]
+            # generic element of a loop over the producer mask: scalar bit * expander
+            scal = ('elem', P)
+            def lab_el(y):
+                if y[0] == 'elem' and y[1] == P:
+                    return ['c']            # one channel bit (scalar)
+                if is_expander(y):
+                    return ['M']
+                if y[0] == 'bin' and y[1] == '*':
+                    u, v = lab_el(y[2]), lab_el(y[3])
+                    if u and v and {tuple(u), tuple(v)} == {('c',), ('M',)}:
+                        return ['M']
+                return None
+            if lab_el(el) == ['M']:
+                return ['C,M']              # outer loop over channels, inner positions
+            return None
+        return None
+    r = lab(t)
+    if r is None or len(r) != 1:
+        return None
+    return r[0] if r[0] in ('C,M', 'M,C') else None
 
 
 def r09d(ctx):
